@@ -217,9 +217,10 @@ func (x *Exec) Verify() {
 	}
 	for _, fv := range fn.FreeVars {
 		v := x.e.freshVal(p, fv.Type().(*types.Pointer).Elem(), fv.Name())
+		v.Label = fv.Name()
 		cell := "fv:" + fv.Name()
 		p.cells[cell] = v
-		p.escaped[cell] = true
+		x.e.note("variables captured by a closure are not modified while the closure runs")
 		a := Val{K: KAddr, T: fv.Type(), A: &Addr{Kind: ALocal, Cell: cell, ET: fv.Type().(*types.Pointer).Elem(), Label: fv.Name()}}
 		fr.env[fv] = a
 		fr.names[fv.Name()] = a
@@ -1000,6 +1001,11 @@ func (x *Exec) execFrom(p *Path, b *ssa.BasicBlock, i int, k *Cont) {
 			fr.defers = append(fr.defers, d)
 		case *ssa.Go:
 			key := x.callKey(p, &in.Call)
+			if mc, ok := in.Call.Value.(*ssa.MakeClosure); ok {
+				key = mc.Fn.(*ssa.Function).Name()
+			} else if f := in.Call.StaticCallee(); f != nil {
+				key = f.Name()
+			}
 			p.events = append(p.events, Event{Key: "go:" + key})
 		case *ssa.RunDefers:
 			next := i + 1
